@@ -27,7 +27,7 @@ def units(tier):
                                dict(datafit='Quadratic', penalty=pen, X=X, j=j, fit_intercept=fi, descent=False), wall_s=60))
     us.append(Unit('C04/S/cd_step[QuadraticSVC,IndicatorBox,X=gen32,j=0]', ST.u_cd_step,
                    dict(datafit='QuadraticSVC', penalty='IndicatorBox', X='gen32', j=0, fit_intercept=False, descent=False), wall_s=60))
-    for pen, X in itertools.product(['L1+', 'WeightedL1+', 'IndicatorBox', 'MCPenalty+'], ['corr32']):
+    for pen, X in itertools.product(['L1+', 'WeightedL1+', 'IndicatorBox'] + ([] if q else ['MCPenalty+']), ['corr32']):
         for greedy in (False, True):
             us.append(Unit('C04/S/gram_step[%s,X=%s,greedy=%s]' % (pen, X, greedy), ST.u_gram_step,
                            dict(penalty=pen, X=X, greedy=greedy), wall_s=90, timeout_ms=8000))
@@ -40,9 +40,9 @@ def units(tier):
     for pen in (POS[:3] if q else POS):
         runs.append(dict(solver='AndersonCD', datafit='Quadratic', penalty=pen, X='corr32', max_iter=2, max_epochs=1, p0=1,
                          fit_intercept=True, ws_strategy='subdiff', warm=False))
-    for pen, fi in itertools.product(('L1+', 'WeightedL1+', 'IndicatorBox', 'MCPenalty+') if q else POS, (False, True)):
-        if q and dh((pen, fi)) % 2:
-            continue
+    acc = [('L1+', False), ('WeightedL1+', False), ('L1+', True), ('L1_plus_L2+', False)] if q else \
+        [(pen, fi) for pen in POS for fi in (False, True)]
+    for pen, fi in acc:
         runs.append(dict(solver='AndersonCD', datafit='Quadratic', penalty=pen, X='corr32', max_iter=1, max_epochs=1,
                          max_epochs_unpatched=7, acc_stub=1, p0=2, fit_intercept=fi, ws_strategy='subdiff', warm=True))
     for c in runs:
